@@ -188,6 +188,7 @@ package packfile
 //gvc:  ensures complete: err == nil ==> now(mw).#wlen == w0 + size
 //gvc:  ensures consumed: err == nil ==> deltaBuf.#pos == deltaBuf.#n
 //gvc:  ensures minsize: err == nil ==> deltaBuf.#n - old(deltaBuf.#pos) >= 4
+//gvc:  sink DecodeLEB128FromReader#2 requires [C06] srcsize: typeis(base, "bytes.Reader") ==> srcSz == base.#n
 //gvc:end
 
 // ReaderFromDelta (lazy streaming applier; its goroutine is verified from the
